@@ -136,7 +136,8 @@ class DFTKernel(KernelEvalBase):
     def Nctrl(self):
         if self.X1ctrl is None:
             raise ValueError("X1ctrl not set.")
-        return self.X1ctrl.shape[0]
+        # X1ctrl is (nctrl, N1), or (2, nctrl, N1) in POL mode
+        return self.X1ctrl.shape[-2]
 
     def _reduce_npts(self, X):
         if self.mode == "POL":
